@@ -52,6 +52,14 @@ def holds(spec, toks):
             if d < 0:
                 return False
         return d == 0 and all(m in toks for m in spec['markers'])
+    if mode == 'app':
+        # some application ( head X ) of `head` to exactly one atom
+        hd = spec['head']
+        if not all(m in toks for m in spec.get('markers', [])):
+            return False
+        return any(toks[i] == '(' and toks[i + 1] == hd
+                   and toks[i + 2] not in '()' and toks[i + 3] == ')'
+                   for i in range(len(toks) - 3))
     if mode == 'member':
         return toks in spec['members']
     if mode == 'always':
